@@ -96,6 +96,10 @@ SENSITIVITY = {
     "r16a": ("seeded/r16a/patch.diff", "C17", ["result-mismatch"], "C / B: one-entry cache of the packed end piece of an extrapolating spline, ensure-then-use with two lock acquisitions"),
     "r16b": ("seeded/r16b/patch.diff", "C17", ["result-mismatch"], "C / B: Bilinear scratch-row pool whose lease is a load followed by an unchecked fetch_or"),
     "r16d": ("seeded/r16d/patch.diff", "C18", ["callback-invariant"], "A: range accessors and get_index_left_of run on as_slice_memory_order(): wrong for a stride -1 axis view"),
+    "r17a": ("seeded/r17a/patch.diff", "C17", ["process-history-dependence", "result-mismatch", "reference-unstable", "entry-point-mismatch"], "A: spline coefficients shared through a registry keyed by an order-insensitive checksum of the data (relative slots with permuted data, fresh-process reference)"),
+    "r17b": ("seeded/r17b/patch.diff", "C17", ["result-mismatch"], "C: hot-segment table under an RwLock, compacted by a rare writer between a reader's two lock acquisitions"),
+    "r17c": ("seeded/r17c/patch.diff", "C18", ["callback-invariant", "error-swallowed", "wrong-target", "query-element-not-delivered"], "A: batch elements a few ulps outside the range are snapped to the axis end before the strategy sees them"),
+    "r17d": ("seeded/r17d/patch.diff", "C18", ["callback-invariant"], "A: Interp2D keeps a packed copy of widely strided axes; index_point reads y from the x copy"),
     "M16": ("mutants/M16.diff", "C17", ["answers-differ-between-processes", "process-history-dependence"], "A: evaluation order picked once per process from the hasher's random seed"),
 }
 # seeded/r7d is kept but not listed: its author reads C18 as forbidding one-point axes for strategies
